@@ -579,6 +579,8 @@ pub fn execute(
 /// are blocked for ever (legitimately or not), join what finishes, leak the rest
 pub fn finish(ctl: &'static Ctrl, out: &Outcome, mut handles: Vec<Handle>, unstick: &mut dyn FnMut()) {
     ctl.end();
+    ctl.wait_passive_idle(30);
+    std::thread::sleep(Duration::from_micros(200));
     if !matches!(out.end, End::Finished) {
         unstick();
         let t0 = std::time::Instant::now();
